@@ -410,7 +410,9 @@ def cmd_check(prop, tier, only_units=None, replay_file=None):
         need_race = any(u.get("race") for u in units)
         need_plain = any(not u.get("race") and u["mode"] != "fuzz" for u in units)
         need_fuzz = any(u["mode"] == "fuzz" for u in units)
-        outdir = os.path.join(BUILD, "%s-%s" % (prop, tier))
+        # binaries built against a VERIF_REPO scratch tree go elsewhere: a binary of a broken tree left under the
+        # usual name is a trap for whoever runs it by hand later
+        outdir = os.path.join(BUILD, "%s%s-%s" % ("" if REPO == "/repo" else "alt-", prop, tier))
         bins = {}
         helpers = spec.get("helpers", ())
         if need_plain or not (need_race or need_fuzz):
@@ -499,7 +501,7 @@ def cmd_replay(prop, path):
     """re-runs exactly one saved failing case."""
     path = os.path.abspath(path)
     spec = checks.PROPS[prop]
-    outdir = os.path.join(BUILD, "%s-replay" % prop)
+    outdir = os.path.join(BUILD, "%s%s-replay" % ("" if REPO == "/repo" else "alt-", prop))
     race = any(u.get("race") for u in spec["units"])
     base = os.path.basename(path)
     work = os.path.join(WORK, "replay-%s-%d" % (prop, os.getpid()))
